@@ -136,6 +136,22 @@ func Core() []*Schema {
 		St("Grid", F("rows", A(A(N("Cell")))), F("mrows", A(A(N("CellMsg")))), F("urows", A(A(N("CellU")))), F("tail", P("uint32"))),
 		St("GridMaps", F("byrow", M("string", A(N("Cell")))), F("rowsof", A(M("uint8", N("CellMsg")))), F("deep", M("int32", M("string", N("Cell")))), F("tail", P("byte")))))
 
+	// 8a'. structs whose fields are ONLY enums, only messages, only unions, only such structs
+	// (no primitive anywhere near the top), in arrays and maps
+	out = append(out, mk("recordonly",
+		En("Tint", "uint8", EO("Red", 1), EO("Green", 2)),
+		En("Far", "uint64", EO("Near", 0), EO("Away", 1<<40)),
+		Msg("Note", MF(1, "t", P("string"))),
+		Un("Either", Br(1, St("Lft", F("a", P("byte")))), Br(2, Msg("Rgt", MF(1, "b", P("string"))))),
+		St("Style", F("fg", N("Tint")), F("bg", N("Tint"))),
+		St("Span", F("from", N("Far")), F("to", N("Far"))),
+		St("Notes", F("a", N("Note")), F("b", N("Note"))),
+		St("Choice", F("e", N("Either"))),
+		St("Look", F("s", N("Style")), F("n", N("Notes")), F("c", N("Choice"))),
+		St("Sheet", F("styles", A(N("Style"))), F("spans", A(N("Span"))), F("notes", A(N("Notes"))), F("choices", A(N("Choice"))), F("looks", A(N("Look"))),
+			F("bykey", M("string", N("Style"))), F("tail", P("uint32"))),
+		Msg("SheetM", MF(1, "styles", A(N("Style"))), MF(2, "looks", A(N("Look"))), MF(3, "spans", M("uint16", N("Span"))))))
+
 	// 8f. a large program: 40 records each with two map fields (thresholds on the number
 	// of definitions, file-wide counters in the generator)
 	{
